@@ -5,8 +5,9 @@
      eq_refA          the reference attribution of WarmTreeDefs.v
      eq_decl          the declared contents of CompWarmContInv.v
      eq_k2, eq_treeA, eq_cls   the class `cls` of WarmTreeDefs.v is closed under `==`
-     eq_k7            k7_shape a = k7_shape b when both trees carry every cache id once
-                      (announces_unmapped looks at a cold stream of the wrapped source: E3)
+     eq_k7, eq_k7c    k7_shape a = k7_shape b, k7c_shape a = k7c_shape b when both trees carry
+                      every cache id once (the classes look at cold streams of the wrapped
+                      source: E3)
    and the two spellings of "every cache id once" (EqObsTree.v / ColdCache.v) coincide. *)
 From RS Require Import Base.Prelude Base.Text Rope.RopeModel Codec.Vlq Codec.CodecSpec
   Stream.Types Stream.Leaves Stream.Concat Stream.Replace Stream.Combined Stream.Tree
@@ -189,9 +190,45 @@ Proof.
     rewrite (IH ib H (distinct_cached _ _ Ha) (distinct_cached _ _ Hb)). reflexivity.
 Qed.
 
+(* the same for the class the checker uses (k7c_shape: cold streams with and without columns) *)
+Lemma cold_events_eq (a b : src) (c : bool) :
+  src_eqb a b = true -> ColdCache.ids_distinct a -> ColdCache.ids_distinct b ->
+  cold_events a c = cold_events b c.
+Proof.
+  intros H Ha Hb. unfold cold_events.
+  exact (proj1 (E3_eq_cold_answers a b H (proj2 (ids_distinct_same a) Ha) (proj2 (ids_distinct_same b) Hb)
+                  (mkOpts c false) true)).
+Qed.
+
+Lemma history_dependent_eq (a b : src) :
+  src_eqb a b = true -> ColdCache.ids_distinct a -> ColdCache.ids_distinct b ->
+  announces_history_dependent a = announces_history_dependent b.
+Proof.
+  intros H Ha Hb. unfold announces_history_dependent.
+  rewrite (cold_events_eq a b true H Ha Hb), (cold_events_eq a b false H Ha Hb). reflexivity.
+Qed.
+
+Theorem eq_k7c : forall a b, src_eqb a b = true -> ColdCache.ids_distinct a -> ColdCache.ids_distinct b ->
+  k7c_shape a = k7c_shape b.
+Proof.
+  induction a as [ba va|va|va|va na|va na ma oa ia ra|ca IH|ia ra IH|ida ia IH] using src_ind';
+    intros [bb vb|vb|vb|vb nb|vb nb mb ob ib rb|cb|ib rb|idb ib] H Ha Hb;
+    try discriminate H; try reflexivity.
+  - rewrite src_eqb_concat in H. cbn [k7c_shape]. revert cb H Hb.
+    induction IH as [|c ca Hc _ IHl]; intros [|d cb] H Hb; try discriminate H; [reflexivity|].
+    rewrite concat_eqb_cons in H. apply andb_true_iff in H. destruct H as [H1 H2].
+    destruct (distinct_concat_head _ _ Ha) as [Ha1 Ha2]. destruct (distinct_concat_head _ _ Hb) as [Hb1 Hb2].
+    cbn [existsb]. rewrite (Hc d H1 Ha1 Hb1), (IHl Ha2 cb H2 Hb2). reflexivity.
+  - cbn [src_eqb] in H. apply andb_true_iff in H. destruct H as [H _]. cbn [k7c_shape]. apply (IH ib H Ha Hb).
+  - cbn [src_eqb] in H. cbn [k7c_shape].
+    rewrite (history_dependent_eq ia ib H (distinct_cached _ _ Ha) (distinct_cached _ _ Hb)).
+    rewrite (IH ib H (distinct_cached _ _ Ha) (distinct_cached _ _ Hb)). reflexivity.
+Qed.
+
 Print Assumptions ids_distinct_same.
 Print Assumptions eq_uncache.
 Print Assumptions eq_refA.
 Print Assumptions eq_decl.
 Print Assumptions eq_cls.
 Print Assumptions eq_k7.
+Print Assumptions eq_k7c.
